@@ -8,12 +8,16 @@
 // snapshot after every later operation for as long as the property entitles
 // the caller to it.  The pools poison what is returned to them
 // (parquet.VerifSetPoison), so a dangling alias shows deterministically.
-// Pages (Values / Dictionary until Release) and Buffers (re-read after more
-// writes, after sort) are covered by their own case kinds.
+// Pages (Values / Dictionary until Release), the value-level chunk reader
+// (NewColumnChunkValueReader: values until the next call) and Buffers (Buffer,
+// GenericBuffer, RowBuffer re-read after more writes, after sort, after Reset
+// and new writes) are covered by their own case kinds.
 //
 // Part 2 (caller slices): the rows and slices passed to every write entry point
-// are checksummed (contents, order, addresses, spare capacity filled with a
-// sentinel) before the call and after the call, sort, Flush, Close and churn.
+// and row writer wrapper (filter, dedupe, transform, multi) are checksummed
+// (contents, order, addresses, spare capacity filled with a sentinel) before the
+// call and after the call, sort, Flush, Close and churn; the input comes as
+// drawn and sorted (repeated rows neighbours).
 package main
 
 import (
@@ -1691,6 +1695,9 @@ func c16RunHist(c *core.Ctx, cs *c16HistCase, bucket string) bool {
 
 var c16BatchSizes = []int{1, 2, 3, 5, 17, 64, 200}
 
+// destinations of the value-level reader: one value .. many pages
+var c16ValueBatches = []int{1, 3, 17, 64, 200, 1500}
+
 // c16GenHist draws a history over 2..4 readers of files from the pool.
 func c16GenHist(rng *rand.Rand, pool []c16FileSpec, maxOps int) *c16HistCase {
 	cs := &c16HistCase{Part: "hist", ChurnSeed: rng.Int63n(1 << 40)}
@@ -1795,6 +1802,13 @@ type c16PagesCase struct {
 	Col       int         `json:"column"`
 	Hold      int         `json:"hold"` // pages the caller keeps before releasing the oldest
 	MaxPages  int         `json:"max_pages"`
+	// Batch > 0: the chunk is read through parquet.NewColumnChunkValueReader with
+	// destinations of Batch values (MaxPages then bounds the number of calls);
+	// SeekAt > 0: SeekToRow(SeekRow) before call number SeekAt.
+	Batch     int         `json:"value_reader_batch,omitempty"`
+	Recycle   bool        `json:"recycle_destination,omitempty"`
+	SeekAt    int         `json:"seek_before_call,omitempty"`
+	SeekRow   int64       `json:"seek_row,omitempty"`
 	ChurnSeed int64       `json:"churn_seed"`
 	Workers   int         `json:"workers"`
 }
@@ -1835,6 +1849,10 @@ func c16ExecPages(cs *c16PagesCase) (o *c16Outcome) {
 		}
 	}
 	cc := f.RowGroups()[cs.RG].ColumnChunks()[cs.Col]
+	if cs.Batch > 0 {
+		c16ExecChunkValues(cs, o, &pageNo, b, cc, want)
+		return o
+	}
 	pages := cc.Pages()
 	defer pages.Close()
 	type heldPage struct {
@@ -1912,6 +1930,101 @@ func c16ExecPages(cs *c16PagesCase) (o *c16Outcome) {
 	return o
 }
 
+// c16ExecChunkValues reads a column chunk through the public value-level
+// reader, parquet.NewColumnChunkValueReader: ReadValues into destinations of
+// cs.Batch values (smaller than, equal to, and many times larger than a page).
+// ValueReader documents no validity window of its own; the caller is given the
+// one every reader of the package has: what a call returned is the caller's
+// until the next call on the same reader (ReadValues, SeekToRow, Close).  Each
+// batch is compared with the chunk's content at once, and with its snapshot
+// after churn and GC, before the next call.
+func c16ExecChunkValues(cs *c16PagesCase, o *c16Outcome, callNo *int, b *c16Built, cc parquet.ColumnChunk, want [][]byte) {
+	vr := parquet.NewColumnChunkValueReader(cc)
+	closed := false
+	defer func() {
+		if !closed {
+			vr.Close()
+		}
+	}()
+	// index of the first value of every row of the row group in the chunk
+	var rowStart []int
+	{
+		n := 0
+		for _, row := range b.rows[b.rgOff[cs.RG] : b.rgOff[cs.RG]+b.rgRows[cs.RG]] {
+			rowStart = append(rowStart, n)
+			for _, v := range row {
+				if v.Column() == cs.Col {
+					n++
+				}
+			}
+		}
+	}
+	var dst []parquet.Value
+	pos := 0
+	for *callNo = 0; *callNo < cs.MaxPages && o.class == ""; *callNo++ {
+		call := *callNo
+		if cs.SeekAt > 0 && call == cs.SeekAt && cs.SeekRow >= 0 && cs.SeekRow < int64(len(rowStart)) {
+			if err := vr.SeekToRow(cs.SeekRow); err != nil {
+				o.fail("error", -1, call, "SeekToRow(%d) before call %d: %v", cs.SeekRow, call, err)
+				return
+			}
+			pos = rowStart[cs.SeekRow]
+		}
+		if dst == nil || !cs.Recycle {
+			dst = make([]parquet.Value, cs.Batch)
+		}
+		n, err := vr.ReadValues(dst)
+		if n < 0 || n > len(dst) {
+			o.fail("error", -1, call, "ReadValues returned %d for a destination of %d values", n, len(dst))
+			return
+		}
+		vals := dst[:n]
+		for x, v := range vals {
+			got := c16AppendValue(nil, v)
+			if pos+x >= len(want) || !bytes.Equal(got, want[pos+x]) {
+				w := []byte(nil)
+				if pos+x < len(want) {
+					w = want[pos+x]
+				}
+				o.fail("wrong-value", call, call, "call %d of ReadValues (destination of %d values, %d returned): value %d (value %d of the chunk) differs from what was written, right after the call: was {%s}, now {%s}", call, len(dst), n, x, pos+x, c16DescribeValue(w), c16DescribeValue(got))
+				return
+			}
+		}
+		pos += n
+		if err != nil && err != io.EOF {
+			o.fail("error", -1, call, "ReadValues call %d: %v", call, err)
+			return
+		}
+		if n == 0 && err == nil {
+			o.fail("error", -1, call, "ReadValues call %d: no value and no error", call)
+			return
+		}
+		if n > 0 {
+			h := c16HoldValues(call, 'v', vals)
+			o.batches++
+			o.values += n
+			c16Churn(cs.ChurnSeed+int64(call)*31, map[bool]int{true: cs.Workers, false: 0}[call%4 == 0])
+			if call%5 == 1 {
+				c16GC(false)
+			}
+			if h.ba > 0 {
+				o.nontrivial = true
+			}
+			o.compare(h, call, fmt.Sprintf("before the next call on the value reader (after call %d and churn)", call))
+		}
+		if err == io.EOF {
+			if pos != len(want) {
+				o.fail("wrong-value", call, call, "the value reader ended after %d values, the chunk holds %d", pos, len(want))
+			}
+			break
+		}
+	}
+	closed = true
+	if err := vr.Close(); err != nil && o.class == "" {
+		o.fail("error", -1, *callNo, "Close of the value reader: %v", err)
+	}
+}
+
 func c16RunPages(c *core.Ctx, cs *c16PagesCase, bucket string) bool {
 	key, _ := json.Marshal(cs)
 	var o *c16Outcome
@@ -1938,9 +2051,17 @@ func c16RunPages(c *core.Ctx, cs *c16PagesCase, bucket string) bool {
 		func(t *c16PagesCase) { t.Workers = 0 },
 		func(t *c16PagesCase) { t.Hold = 1 },
 		func(t *c16PagesCase) { t.MaxPages = o.op + 1 },
+		func(t *c16PagesCase) { t.SeekAt = 0 },
+		func(t *c16PagesCase) { t.Recycle = false },
+		func(t *c16PagesCase) { t.Batch /= 4 },
+		func(t *c16PagesCase) { t.Batch /= 2 },
+		func(t *c16PagesCase) { t.Batch = t.Batch * 3 / 4 },
 	} {
 		u := min
 		t(&u)
+		if (cs.Batch > 0) != (u.Batch > 0) {
+			continue
+		}
 		if c.Probe(func() {
 			if r := c16ExecPages(&u); r.class == o.class {
 				c.Violation(r.class, r.what, u)
@@ -1953,7 +2074,11 @@ func c16RunPages(c *core.Ctx, cs *c16PagesCase, bucket string) bool {
 	if r.class == "" {
 		r, min = o, *cs
 	}
-	c.Violation(class, fmt.Sprintf("%s [ColumnChunk.Pages of row group %d column %d]", r.what, min.RG, min.Col), min)
+	api := "ColumnChunk.Pages"
+	if min.Batch > 0 {
+		api = "NewColumnChunkValueReader"
+	}
+	c.Violation(class, fmt.Sprintf("%s [%s of row group %d column %d]", r.what, api, min.RG, min.Col), min)
 	return false
 }
 
@@ -1964,6 +2089,8 @@ func c16RunPages(c *core.Ctx, cs *c16PagesCase, bucket string) bool {
 type c16BufCase struct {
 	Part       string `json:"part"`
 	Generic    bool   `json:"generic"`    // GenericBuffer[T].Write, else Buffer
+	RowBuf     bool   `json:"row_buffer,omitempty"` // RowBuffer[T]
+	Rec        string `json:"record,omitempty"`     // "" c16Rec, "ref" c16RefRec (reference-type fields, raw variant struct)
 	Rows       bool   `json:"write_rows"` // write through WriteRows
 	Sort       string `json:"sort"`       // "", id-desc, s, d, u
 	Salt       int    `json:"salt"`
@@ -1983,7 +2110,103 @@ type c16AnyBuffer interface {
 	Reset()
 }
 
-func c16ExecBuf(cs *c16BufCase) (o *c16Outcome) {
+// c16BufKit is what a buffer case needs to know of its record type T.
+type c16BufKit[T any] struct {
+	schema *parquet.Schema
+	mk     func(salt, id int) T
+	less   func(sort string) func(a, b *T) bool // nil: the record type has no such sort key
+	// rowDiff compares a row read back from the buffer with record id ("" when equal)
+	rowDiff func(salt, id int, row parquet.Row) string
+	// recDiff compares a record read back by a typed read with record id
+	recDiff func(salt, id int, got *T) string
+}
+
+var c16BufSortCols = map[string][]parquet.SortingColumn{
+	"id":      {parquet.Ascending("id")},
+	"id-desc": {parquet.Descending("id")},
+	"s":       {parquet.Ascending("s")},
+	"d":       {parquet.Ascending("d"), parquet.Ascending("s")},
+	"u":       {parquet.Descending("u")},
+}
+
+var c16BufKitRec = c16BufKit[c16Rec]{
+	schema: c16Schema,
+	mk:     func(salt, id int) c16Rec { return c16MakeRec(salt, id, false, 1) },
+	less: func(sort string) func(a, b *c16Rec) bool {
+		switch sort {
+		case "id":
+			return func(a, b *c16Rec) bool { return a.ID < b.ID }
+		case "id-desc":
+			return func(a, b *c16Rec) bool { return a.ID > b.ID }
+		case "s":
+			return func(a, b *c16Rec) bool { return a.S < b.S }
+		case "d":
+			return func(a, b *c16Rec) bool { return a.D < b.D || a.D == b.D && a.S < b.S }
+		case "u":
+			return func(a, b *c16Rec) bool { return bytes.Compare(a.U[:], b.U[:]) > 0 }
+		}
+		return nil
+	},
+	rowDiff: func(salt, id int, row parquet.Row) string {
+		r := c16MakeRec(salt, id, false, 1)
+		if w, g := c16CanonRow(c16Schema.Deconstruct(nil, &r)), c16CanonRow(row); !bytes.Equal(w, g) {
+			return c16DiffRow(w, g)
+		}
+		return ""
+	},
+	recDiff: func(salt, id int, got *c16Rec) string {
+		want := c16MakeRec(salt, id, false, 1)
+		if g, w := c16CanonGo(got, false), c16CanonGo(&want, false); !bytes.Equal(g, w) {
+			return c16DiffBytes(w, g)
+		}
+		return ""
+	},
+}
+
+// Records with reference-type fields (ref.go): JSON and VARIANT columns, a raw
+// variant struct, lists and maps of byte slices.  Map entries are deconstructed
+// in the order Go iterates the map, so rows are compared through the normal
+// form of the record they reconstruct to.
+var c16BufKitRef = c16BufKit[c16RefRec]{
+	schema: c16RefSchema,
+	mk:     c16RefMake,
+	less: func(sort string) func(a, b *c16RefRec) bool {
+		switch sort {
+		case "id":
+			return func(a, b *c16RefRec) bool { return a.ID < b.ID }
+		case "id-desc":
+			return func(a, b *c16RefRec) bool { return a.ID > b.ID }
+		}
+		return nil
+	},
+	rowDiff: func(salt, id int, row parquet.Row) string {
+		var got c16RefRec
+		if err := c16RefSchema.Reconstruct(&got, row); err != nil {
+			return "the row cannot be reconstructed: " + err.Error()
+		}
+		want := c16RefMake(salt, id)
+		if w, g := c16NormOf(&want), c16NormOf(&got); w != g {
+			return c16DiffText(w, g)
+		}
+		return ""
+	},
+	recDiff: func(salt, id int, got *c16RefRec) string {
+		want := c16RefMake(salt, id)
+		if w, g := c16NormOf(&want), c16NormOf(got); w != g {
+			return c16DiffText(w, g)
+		}
+		return ""
+	},
+}
+
+func c16ExecBuf(cs *c16BufCase) *c16Outcome {
+	if cs.Rec == "ref" {
+		return c16ExecBufT(cs, &c16BufKitRef)
+	}
+	return c16ExecBufT(cs, &c16BufKitRec)
+}
+
+func c16ExecBufT[T any](cs *c16BufCase, kit *c16BufKit[T]) (o *c16Outcome) {
 	o = &c16Outcome{batch: -1, op: -1}
 	step := -1
 	defer func() {
@@ -1992,39 +2215,26 @@ func c16ExecBuf(cs *c16BufCase) (o *c16Outcome) {
 		}
 	}()
 	var opts []parquet.RowGroupOption
-	var less func(a, b *c16Rec) bool
-	switch cs.Sort {
-	case "id":
-		opts = append(opts, parquet.SortingRowGroupConfig(parquet.SortingColumns(parquet.Ascending("id"))))
-		less = func(a, b *c16Rec) bool { return a.ID < b.ID }
-	case "id-desc":
-		opts = append(opts, parquet.SortingRowGroupConfig(parquet.SortingColumns(parquet.Descending("id"))))
-		less = func(a, b *c16Rec) bool { return a.ID > b.ID }
-	case "s":
-		opts = append(opts, parquet.SortingRowGroupConfig(parquet.SortingColumns(parquet.Ascending("s"))))
-		less = func(a, b *c16Rec) bool { return a.S < b.S }
-	case "d":
-		opts = append(opts, parquet.SortingRowGroupConfig(parquet.SortingColumns(parquet.Ascending("d"), parquet.Ascending("s"))))
-		less = func(a, b *c16Rec) bool { return a.D < b.D || a.D == b.D && a.S < b.S }
-	case "u":
-		opts = append(opts, parquet.SortingRowGroupConfig(parquet.SortingColumns(parquet.Descending("u"))))
-		less = func(a, b *c16Rec) bool { return bytes.Compare(a.U[:], b.U[:]) > 0 }
+	less := kit.less(cs.Sort)
+	if less != nil {
+		opts = append(opts, parquet.SortingRowGroupConfig(parquet.SortingColumns(c16BufSortCols[cs.Sort]...)))
 	}
 	var buf c16AnyBuffer
-	var gbuf *parquet.GenericBuffer[c16Rec]
+	var gbuf *parquet.GenericBuffer[T]
+	var rbuf *parquet.RowBuffer[T]
 	var pbuf *parquet.Buffer
-	if cs.Generic {
-		gbuf = parquet.NewGenericBuffer[c16Rec](opts...)
+	switch {
+	case cs.RowBuf:
+		rbuf = parquet.NewRowBuffer[T](opts...)
+		buf = rbuf
+	case cs.Generic:
+		gbuf = parquet.NewGenericBuffer[T](opts...)
 		buf = gbuf
-	} else {
-		pbuf = parquet.NewBuffer(append([]parquet.RowGroupOption{c16Schema}, opts...)...)
+	default:
+		pbuf = parquet.NewBuffer(append([]parquet.RowGroupOption{kit.schema}, opts...)...)
 		buf = pbuf
 	}
-	mk := func(id int) c16Rec { return c16MakeRec(cs.Salt, id, false, 1) }
-	expRow := func(id int) []byte {
-		r := mk(id)
-		return c16CanonRow(c16Schema.Deconstruct(nil, &r))
-	}
+	mk := func(id int) T { return kit.mk(cs.Salt, id) }
 	var order []int // ids in buffer order
 	sorted := 0     // the first `sorted` rows went through sort.Sort (order known up to ties)
 	var forever []*c16Held
@@ -2043,7 +2253,7 @@ func c16ExecBuf(cs *c16BufCase) (o *c16Outcome) {
 			return o
 		}
 		step = bi
-		recs := make([]c16Rec, n)
+		recs := make([]T, n)
 		for j := range recs {
 			id := next + j
 			if cs.SwapAt != nil && id == *cs.SwapAt && j+1 < n {
@@ -2060,9 +2270,11 @@ func c16ExecBuf(cs *c16BufCase) (o *c16Outcome) {
 		case cs.Rows:
 			rows := make([]parquet.Row, n)
 			for j := range recs {
-				rows[j] = c16Schema.Deconstruct(nil, &recs[j])
+				rows[j] = kit.schema.Deconstruct(nil, &recs[j])
 			}
 			_, err = buf.WriteRows(rows)
+		case cs.RowBuf:
+			_, err = rbuf.Write(recs)
 		case cs.Generic:
 			_, err = gbuf.Write(recs)
 		default:
@@ -2115,8 +2327,8 @@ func c16ExecBuf(cs *c16BufCase) (o *c16Outcome) {
 			}
 			seen[id] = true
 			actual[x] = id
-			if w, g := expRow(id), c16CanonRow(row); !bytes.Equal(w, g) {
-				o.fail("wrong-value", bi, bi, "after batch %d (writes of %v rows, sort after batch %d): row %d of the buffer (id %d) differs from what was written: %s", bi, cs.Batches[:bi+1], cs.SortAfter, x, id, c16DiffRow(w, g))
+			if d := kit.rowDiff(cs.Salt, id, row); d != "" {
+				o.fail("wrong-value", bi, bi, "after batch %d (writes of %v rows, sort after batch %d): row %d of the buffer (id %d) differs from what was written: %s", bi, cs.Batches[:bi+1], cs.SortAfter, x, id, d)
 				return o
 			}
 			if x > 0 && x < sorted && bi == cs.SortAfter {
@@ -2142,21 +2354,20 @@ func c16ExecBuf(cs *c16BufCase) (o *c16Outcome) {
 			clones[x] = got[x].Clone()
 		}
 		forever = append(forever, c16HoldRows(bi, 'k', 0, clones))
-		gr := parquet.NewGenericRowGroupReader[c16Rec](buf)
-		typed := make([]c16Rec, len(order))
+		gr := parquet.NewGenericRowGroupReader[T](buf)
+		typed := make([]T, len(order))
 		k, err := gr.Read(typed)
 		if err != nil && err != io.EOF {
 			o.fail("error", -1, bi, "typed read after batch %d: %v", bi, err)
 			return o
 		}
 		for x := 0; x < k; x++ {
-			want := mk(order[x])
-			if g, w := c16CanonGo(&typed[x], false), c16CanonGo(&want, false); !bytes.Equal(g, w) || k != len(order) {
-				o.fail("wrong-value", bi, bi, "typed read after batch %d: record %d (id %d; %d of %d records) differs from what was written: %s", bi, x, order[x], k, len(order), c16DiffBytes(w, g))
+			if d := kit.recDiff(cs.Salt, order[x], &typed[x]); d != "" || k != len(order) {
+				o.fail("wrong-value", bi, bi, "typed read after batch %d: record %d (id %d; %d of %d records) differs from what was written: %s", bi, x, order[x], k, len(order), d)
 				return o
 			}
 		}
-		forever = append(forever, c16HoldRecs(bi, 0, typed[:k]))
+		forever = append(forever, c16HoldGo(bi, 0, typed[:k]))
 		o.batches += 3
 		o.values += 3 * len(got)
 		rows.Close()
@@ -2249,6 +2460,11 @@ type c16CallerCase struct {
 	Salt      int    `json:"salt"`
 	N         int    `json:"n"`
 	Dup       bool   `json:"repeated_rows"`
+	// Order of the caller's rows: "" as drawn (a permutation: repeated rows are
+	// rarely neighbours), "sorted" by id (repeated rows are neighbours, in the
+	// middle of the batch and at its ends: what the wrappers and writers that
+	// compare neighbouring rows - DedupeRowWriter, DropDuplicatedRows - act on).
+	Order     string `json:"order,omitempty"`
 	Codec     string `json:"codec"`
 	Shuffle   int64  `json:"shuffle_seed"`
 	ChurnSeed int64  `json:"churn_seed"`
@@ -2256,7 +2472,8 @@ type c16CallerCase struct {
 }
 
 var c16CallerAPIs = []string{"gw.Write", "gw.WriteRows", "w.Write", "w.WriteRows", "gb.Write", "gb.WriteRows", "b.Write", "b.WriteRows",
-	"sw.Write", "sw.WriteRows", "cw.WriteRowValues", "copyrows", "pq.Write", "filter.WriteRows", "dedupe.WriteRows"}
+	"sw.Write", "sw.WriteRows", "cw.WriteRowValues", "copyrows", "pq.Write", "filter.WriteRows", "dedupe.WriteRows", "transform.WriteRows", "multi.WriteRows",
+	"copyrows.dedupe"}
 
 // c16SliceReader serves caller-owned rows to CopyRows.
 type c16SliceReader struct {
@@ -2293,6 +2510,9 @@ func c16CallerInput(cs *c16CallerCase) (recs []c16Rec, rows []parquet.Row) {
 			continue
 		}
 		recs[j] = c16MakeRec(cs.Salt, id, true, 2)
+	}
+	if cs.Order == "sorted" {
+		sort.SliceStable(recs, func(a, b int) bool { return recs[a].ID < recs[b].ID })
 	}
 	tail := recs[cs.N:cap(recs)]
 	for j := range tail {
@@ -2340,7 +2560,7 @@ func c16ExecCaller(cs *c16CallerCase) (o *c16Outcome) {
 		}
 	}()
 	recs, rows := c16CallerInput(cs)
-	useRows := strings.HasSuffix(cs.API, "Rows") || cs.API == "copyrows" || cs.API == "cw.WriteRowValues"
+	useRows := strings.HasSuffix(cs.API, "Rows") || strings.HasPrefix(cs.API, "copyrows") || cs.API == "cw.WriteRowValues"
 	// column-wise input of the column writers
 	var colVals [][]parquet.Value
 	if cs.API == "cw.WriteRowValues" {
@@ -2439,18 +2659,84 @@ func c16ExecCaller(cs *c16CallerCase) (o *c16Outcome) {
 		do("close", w.Close)
 	case "pq.Write":
 		do("write", func() error { return parquet.Write[c16Rec](&out, recs, wopts...) })
-	case "filter.WriteRows", "dedupe.WriteRows":
-		// row writer wrappers: they borrow the caller's rows on their way to the writer
+	case "filter.WriteRows", "dedupe.WriteRows", "transform.WriteRows", "multi.WriteRows", "copyrows.dedupe":
+		// row writer wrappers: they borrow the caller's rows on their way to the
+		// writer.  The wrappers do what they are for: the filter drops rows, the
+		// comparator of the dedupe writer finds the repeated rows equal (rows
+		// with the same id), the transform rewrites rows, the multi writer has
+		// two destinations.
 		w := parquet.NewGenericWriter[c16Rec](&out, wopts...)
 		var rw parquet.RowWriter
 		switch cs.API {
 		case "filter.WriteRows":
 			k := 0
 			rw = parquet.FilterRowWriter(w, func(parquet.Row) bool { k++; return k%3 != 0 })
-		case "dedupe.WriteRows":
-			rw = parquet.DedupeRowWriter(w, func(a, b parquet.Row) int { return 1 })
+		case "dedupe.WriteRows", "copyrows.dedupe":
+			rw = parquet.DedupeRowWriter(w, c16Schema.Comparator(parquet.Ascending("id")))
+		case "transform.WriteRows":
+			k := 0
+			rw = parquet.TransformRowWriter(w, func(dst, src parquet.Row) (parquet.Row, error) {
+				if k++; k%4 == 0 {
+					return dst, nil // dropped
+				}
+				for _, v := range src {
+					if v.Kind() == parquet.Int64 && v.Column() == 0 {
+						v = parquet.Int64Value(v.Int64()+1000).Level(v.RepetitionLevel(), v.DefinitionLevel(), v.Column())
+					}
+					dst = append(dst, v)
+				}
+				return dst, nil
+			})
+		case "multi.WriteRows":
+			var out2 bytes.Buffer
+			w2 := parquet.NewGenericWriter[c16Rec](&out2, wopts...)
+			rw = parquet.MultiRowWriter(parquet.DedupeRowWriter(w, c16Schema.Comparator(parquet.Ascending("id"))), w2)
 		}
-		do("write", func() (err error) { _, err = rw.WriteRows(rows); return err })
+		if cs.API == "copyrows.dedupe" {
+			// the source is a RowBuffer holding the caller's rows: its reader hands the
+			// buffer's own rows to the writer (WriteRowsTo); the buffer must read the
+			// same afterwards
+			rb := parquet.NewRowBuffer[c16Rec]()
+			readAll := func() (all []byte, err error) {
+				rr := rb.Rows()
+				defer rr.Close()
+				dst := make([]parquet.Row, 7)
+				for {
+					k, err := rr.ReadRows(dst)
+					for _, r := range dst[:k] {
+						all = append(all, c16CanonRow(r)...)
+					}
+					if err != nil || k == 0 {
+						if err == io.EOF {
+							err = nil
+						}
+						return all, err
+					}
+				}
+			}
+			var src []byte
+			do("fill the source buffer", func() (err error) {
+				if _, err = rb.WriteRows(rows); err == nil {
+					src, err = readAll()
+				}
+				return err
+			})
+			do("write", func() (err error) {
+				rr := rb.Rows()
+				defer rr.Close()
+				_, err = parquet.CopyRows(rw, rr)
+				return err
+			})
+			do("read the source buffer again", func() error {
+				now, err := readAll()
+				if err == nil && !bytes.Equal(now, src) {
+					o.fail("source-modified", -1, -1, "%s (%d rows, repeated=%v, order=%q): the RowBuffer that was the source of CopyRows reads differently after the copy: %s", cs.API, cs.N, cs.Dup, cs.Order, c16DiffBytes(src, now))
+				}
+				return err
+			})
+		} else {
+			do("write", func() (err error) { _, err = rw.WriteRows(rows); return err })
+		}
 		do("flush", w.Flush)
 		do("write again", func() (err error) { _, err = rw.WriteRows(rows); return err })
 		do("close", w.Close)
@@ -2603,7 +2889,7 @@ func runC16(c *core.Ctx) {
 			os.RemoveAll(c16TmpDir)
 		}
 	}()
-	c.Res.Rule = "Pools poison what is returned to them. FILES of known content: typed files of c16Rec rows (int64, string, dictionary string, []byte, [16]byte, [5]byte, uuid, *string, []string, nested struct with string/*string/[]byte, map[string]string; cell lengths 0..300; written row by row so every value is known) over every byte array encoding (default, plain, delta length, delta byte array, dictionary) x codec (none snappy gzip brotli zstd lz4) x data page v1/v2 x page buffer 64..4096 x 1..n row groups x DictionaryMaxBytes (none, 48..6000: dictionary columns that fall back to PLAIN pages in the middle of a chunk, early or late), files of c16DynS rows written with an EXPLICIT schema of parquet.Group nodes (nested groups, optional group, repeated group, LIST, MAP, repeated leaf, dictionary column; same writer options), files of c16RefRec rows (REFERENCE-TYPE Go values of logical-type columns: JSON columns read into map, slice, struct, pointer, interface, slice of maps, json.RawMessage, optional map; a VARIANT column read into an interface; lists of byte slices, nested lists, lists of pointers, a repeated byte slice, maps of byte slices / lists / groups, an optional group with slices, a list of groups; element counts go up and down from row to row and map keys overlap between neighbouring rows), KINDS files (one optional leaf per physical type - boolean, int32, int64, int96, float, double, byte array, string, fixed length byte arrays of 1/4/16 bytes, uuid - and per encoding the format allows for the type and the library takes: PLAIN, RLE, PLAIN_DICTIONARY, RLE_DICTIONARY, DELTA_BINARY_PACKED, DELTA_LENGTH_BYTE_ARRAY, DELTA_BYTE_ARRAY, BYTE_STREAM_SPLIT, 55 columns; every column filled every 1st/2nd/3rd/7th/24th/64th row, the density rotating with the salt, so that with small page buffers and row groups of 2 rows pages hold a dozen, a few, two, one or no value; the pages of each file are counted by their number of non-null values) and generated generic files (gen.Case, >= 2 byte array leaves, nested/optional/repeated). DESTINATION TYPES of typed reads: c16Rec (SchemaOf); with the explicit schema c16DynS, a struct whose groups are Go maps (map[string]any, map[string]string, []map[string]string, []any, any), a struct of `any` fields, rows of type map[string]any (maps pre-made by the caller, or nil) and rows of type any - through GenericReader[T].Read, Reader.Read(&v), parquet.Read[T]/ReadFile[T]; values of every destination type are compared with the known content through a normal form of names and content, and held as full canonical forms (content, addresses, map identities, spare capacity). WRITER SHAPES x READER KINDS (systematic): 24 (thorough 96) files walking DictionaryMaxBytes {none,48,200,350,700,2000} x default/dictionary encoding of every byte array column x v1/v2 x 6 codecs x page buffer {64,200,512,1500} x 1/3 row groups x both families, each read by RowGroup.Rows, NewRowGroupRowReader, GenericReader (destination types in turn) and Reader / whole-file helper in one history with batches that span many pages, once in ReadModeSync and once in ReadModeAsync; a shape with a limit counts as non-trivial only when the file has a chunk with a dictionary page AND PLAIN data pages. DESTINATION CORPUS: every destination type x {GenericReader, Reader, whole file}, the usual loop passing the same destination to every call while the caller keeps what earlier calls filled, with churn, GC, ReadRows, Clone, seek, Reset, Close in between. REFERENCE-TYPE DESTINATIONS: c16RefRec x {GenericReader, Reader, whole file}, the same loop with batch sizes 5/3/2/17 so that every destination slot receives rows with more and with fewer elements than it held, next to a row reader of the same file. KINDS CORPUS: 6 (thorough 18) kinds files over codecs x v1/v2 x page buffer 64/200 x {one row group, row groups of 2 rows, 3 row groups} x DictionaryMaxBytes {none,48,700}, each read by RowGroup.Rows, NewRowGroupRowReader, GenericReader and Reader / whole-file helper (into map[string]any pre-made or nil, any) in sync and async mode, and its column chunks page by page (values and dictionary values held until Release under churn; quick tier: every other column per file); a kinds file counts as non-trivial only when it has pages with exactly one and pages with exactly two non-null values. HISTORIES of 4..40 operations over 2..4 readers (RowGroup.Rows, NewRowGroupRowReader, parquet.Reader, GenericReader[T], parquet.Read/ReadFile; sync and async) of possibly different files: ReadRows (1..200 rows, sometimes into recycled rows), typed reads into a random destination type (1 in 4 into the previous destination whose shallow copies the caller kept), Row.Clone of the last batch, SeekToRow, Reset of every reader kind (Reader.Reset, GenericReader.Reset, the Reset method of row group row readers; mostly followed at once by a ReadRows of 5..200 rows, the reader is used on after it, also after Close), Close, churn (other files read by rows and by pages, files written with all codecs, buffers filled/sorted/reset, in this and 2..4 other goroutines), GC (+FreeOSMemory). Every batch is compared with the file content at once and with its deep snapshot after every later operation for as long as the caller is entitled to it (rows until the next call on the same reader; Go values and clones for ever, also after Close and a final churn); the entitlement sets are computed in Go and compared with the model. PAGES: values and dictionary values of 1..3 pages held until Release under churn. BUFFERS: Buffer/GenericBuffer written in several batches (Write/WriteRows), read back after every batch, after sort.Sort (4 sort keys incl. ties and empty strings) and Reset; clones and Go values held across later writes, sort, Reset. CALLER SLICES: 13 write entry points x sorting config x repeated rows, inputs unsorted with spare capacity holding sentinels; full canonical form (contents, order, addresses, capacity region) before vs after write, sort, flush, close, churn. A case is non-trivial when at least one non-empty byte array value was held across at least one churn or GC (caller cases: more than one row); distinct by the JSON of the case."
+	c.Res.Rule = "Pools poison what is returned to them. FILES of known content: typed files of c16Rec rows (int64, string, dictionary string, []byte, [16]byte, [5]byte, uuid, *string, []string, nested struct with string/*string/[]byte, map[string]string; cell lengths 0..300; written row by row so every value is known) over every byte array encoding (default, plain, delta length, delta byte array, dictionary) x codec (none snappy gzip brotli zstd lz4) x data page v1/v2 x page buffer 64..4096 x 1..n row groups x DictionaryMaxBytes (none, 48..6000: dictionary columns that fall back to PLAIN pages in the middle of a chunk, early or late), files of c16DynS rows written with an EXPLICIT schema of parquet.Group nodes (nested groups, optional group, repeated group, LIST, MAP, repeated leaf, dictionary column; same writer options), files of c16RefRec rows (REFERENCE-TYPE Go values of logical-type columns: JSON columns read into map, slice, struct, pointer, interface, slice of maps, json.RawMessage, optional map; a VARIANT column read into an interface and one read into a raw variant struct {Metadata, Value []byte}; lists of byte slices, nested lists, lists of pointers, a repeated byte slice, maps of byte slices / lists / groups, an optional group with slices, a list of groups; element counts go up and down from row to row and map keys overlap between neighbouring rows), KINDS files (one optional leaf per physical type - boolean, int32, int64, int96, float, double, byte array, string, fixed length byte arrays of 1/4/16 bytes, uuid - and per encoding the format allows for the type and the library takes: PLAIN, RLE, PLAIN_DICTIONARY, RLE_DICTIONARY, DELTA_BINARY_PACKED, DELTA_LENGTH_BYTE_ARRAY, DELTA_BYTE_ARRAY, BYTE_STREAM_SPLIT, 55 columns; every column filled every 1st/2nd/3rd/7th/24th/64th row, the density rotating with the salt, so that with small page buffers and row groups of 2 rows pages hold a dozen, a few, two, one or no value; the pages of each file are counted by their number of non-null values) and generated generic files (gen.Case, >= 2 byte array leaves, nested/optional/repeated). DESTINATION TYPES of typed reads: c16Rec (SchemaOf); with the explicit schema c16DynS, a struct whose groups are Go maps (map[string]any, map[string]string, []map[string]string, []any, any), a struct of `any` fields, rows of type map[string]any (maps pre-made by the caller, or nil) and rows of type any - through GenericReader[T].Read, Reader.Read(&v), parquet.Read[T]/ReadFile[T]; values of every destination type are compared with the known content through a normal form of names and content, and held as full canonical forms (content, addresses, map identities, spare capacity). WRITER SHAPES x READER KINDS (systematic): 24 (thorough 96) files walking DictionaryMaxBytes {none,48,200,350,700,2000} x default/dictionary encoding of every byte array column x v1/v2 x 6 codecs x page buffer {64,200,512,1500} x 1/3 row groups x both families, each read by RowGroup.Rows, NewRowGroupRowReader, GenericReader (destination types in turn) and Reader / whole-file helper in one history with batches that span many pages, once in ReadModeSync and once in ReadModeAsync; a shape with a limit counts as non-trivial only when the file has a chunk with a dictionary page AND PLAIN data pages. DESTINATION CORPUS: every destination type x {GenericReader, Reader, whole file}, the usual loop passing the same destination to every call while the caller keeps what earlier calls filled, with churn, GC, ReadRows, Clone, seek, Reset, Close in between. REFERENCE-TYPE DESTINATIONS: c16RefRec x {GenericReader, Reader, whole file}, the same loop with batch sizes 5/3/2/17 so that every destination slot receives rows with more and with fewer elements than it held, next to a row reader of the same file. KINDS CORPUS: 6 (thorough 18) kinds files over codecs x v1/v2 x page buffer 64/200 x {one row group, row groups of 2 rows, 3 row groups} x DictionaryMaxBytes {none,48,700}, each read by RowGroup.Rows, NewRowGroupRowReader, GenericReader and Reader / whole-file helper (into map[string]any pre-made or nil, any) in sync and async mode, and its column chunks page by page (values and dictionary values held until Release under churn; quick tier: every other column per file); a kinds file counts as non-trivial only when it has pages with exactly one and pages with exactly two non-null values. HISTORIES of 4..40 operations over 2..4 readers (RowGroup.Rows, NewRowGroupRowReader, parquet.Reader, GenericReader[T], parquet.Read/ReadFile; sync and async) of possibly different files: ReadRows (1..200 rows, sometimes into recycled rows), typed reads into a random destination type (1 in 4 into the previous destination whose shallow copies the caller kept), Row.Clone of the last batch, SeekToRow, Reset of every reader kind (Reader.Reset, GenericReader.Reset, the Reset method of row group row readers; mostly followed at once by a ReadRows of 5..200 rows, the reader is used on after it, also after Close), Close, churn (other files read by rows and by pages, files written with all codecs, buffers filled/sorted/reset, in this and 2..4 other goroutines), GC (+FreeOSMemory). Every batch is compared with the file content at once and with its deep snapshot after every later operation for as long as the caller is entitled to it (rows until the next call on the same reader; Go values and clones for ever, also after Close and a final churn); the entitlement sets are computed in Go and compared with the model. PAGES: values and dictionary values of 1..3 pages held until Release under churn. CHUNK VALUES: the same column chunks (and every fourth column of each kinds file; thorough: every column) through the value-level reader parquet.NewColumnChunkValueReader, ReadValues into destinations of 1/3/17/64/200/1500 values (less than a page .. many pages), new or recycled, 1 in 3 with a SeekToRow before one of the first calls; every batch compared with the chunk at once and, after churn and GC, with its snapshot before the next call on the reader. BUFFERS: Buffer/GenericBuffer/RowBuffer of c16Rec or c16RefRec records (reference-type fields incl. a raw variant struct {Metadata, Value []byte}) written in several batches (Write/WriteRows), read back after every batch, after sort.Sort (4 sort keys incl. ties and empty strings; c16RefRec by id) and Reset followed by more writes (every record type x buffer kind x write path systematically, 1 in 3 random cases); clones and Go values held across later writes, sort, Reset. CALLER SLICES: 16 write entry points (writers, buffers, sorting writer, column writers, CopyRows, FilterRowWriter, DedupeRowWriter whose comparator finds rows of the same id equal, TransformRowWriter dropping and rewriting rows, MultiRowWriter over a dedupe writer and a plain writer, CopyRows from a RowBuffer - re-read afterwards - into a dedupe writer) x sorting config x repeated rows x order of the input (as drawn, or sorted by id so that repeated rows are neighbours in the middle and at the ends of the batch), inputs with spare capacity holding sentinels; full canonical form (contents, order, addresses, capacity region) before vs after write, sort, flush, close, churn. A case is non-trivial when at least one non-empty byte array value was held across at least one churn or GC (caller cases: more than one row); distinct by the JSON of the case."
 	if err := c16ChurnInit(); err != nil {
 		c.Violation("file", "cannot write the churn files: "+err.Error(), nil)
 		return
@@ -2745,6 +3031,17 @@ func runC16(c *core.Ctx) {
 		if i == 0 {
 			c.Sample(cs)
 		}
+		// the same chunk through the value-level reader, destinations from one value to many pages
+		vs := *cs
+		vs.Batch = c16ValueBatches[rng.Intn(len(c16ValueBatches))]
+		vs.Recycle = rng.Intn(2) == 0
+		if rng.Intn(3) == 0 {
+			vs.SeekAt, vs.SeekRow = 1+rng.Intn(3), rng.Int63n(b.rgRows[vs.RG])
+		}
+		c16RunPages(c, &vs, "held/chunk-values")
+		if i == 0 {
+			c.Sample(&vs)
+		}
 	}
 
 	lap("pages")
@@ -2760,10 +3057,26 @@ func runC16(c *core.Ctx) {
 		p := p
 		c16RunBuf(c, &c16BufCase{Part: "buffer", Generic: p%2 == 0, Rows: p%4 < 2, Sort: "id", Salt: 3 + p/6, Batches: []int{14, 2}, SwapAt: &p, SortAfter: 0, ResetAfter: -1, ReadBatch: 64, ChurnSeed: int64(p)}, "held/buffer")
 	}
+	// record types x buffer kinds x write paths: the buffer is Reset and written again
+	// while the caller keeps the clones and Go values of what it read before
+	for ri, rec := range []string{"", "ref"} {
+		for ki := 0; ki < 3; ki++ {
+			for wi, rw := range []bool{false, true} {
+				c16RunBuf(c, &c16BufCase{Part: "buffer", Rec: rec, Generic: ki == 1, RowBuf: ki == 2, Rows: rw, Salt: 7 + ri + ki, Batches: []int{6, 5, 9, 4}, SortAfter: -1,
+					ResetAfter: (ki + wi) % 2, ReadBatch: 5, ChurnSeed: int64(20 + ki*2 + wi)}, "held/buffer-reset")
+			}
+		}
+	}
 	nb := c.N(80, 700)
 	for i := 0; i < nb; i++ {
 		cs := &c16BufCase{Part: "buffer", Generic: rng.Intn(2) == 0, Rows: rng.Intn(2) == 0, Sort: []string{"", "id-desc", "s", "d", "u", "id"}[rng.Intn(6)],
 			Salt: 1 + rng.Intn(500), SortAfter: -1, ResetAfter: -1, ReadBatch: c16BatchSizes[1+rng.Intn(5)], ChurnSeed: rng.Int63n(1 << 40), Workers: rng.Intn(2) * 2}
+		if rng.Intn(4) == 0 {
+			cs.Generic, cs.RowBuf = false, true
+		}
+		if rng.Intn(3) == 0 {
+			cs.Rec, cs.Sort = "ref", []string{"", "id-desc", "id"}[rng.Intn(3)]
+		}
 		for k := 1 + rng.Intn(4); k > 0; k-- {
 			cs.Batches = append(cs.Batches, 1+rng.Intn(c.N(25, 60)))
 		}
@@ -2790,6 +3103,12 @@ func runC16(c *core.Ctx) {
 			for _, dup := range []bool{false, true} {
 				cs := &c16CallerCase{Part: "caller", API: api, Sorted: sorted, Dedupe: sorted && dup, Salt: 5, N: 12, Dup: dup, Codec: "snappy", Shuffle: 4, ChurnSeed: 6}
 				c16RunCaller(c, cs, "caller/"+api)
+				if dup {
+					// the same with the repeated rows next to each other
+					ns := *cs
+					ns.Order = "sorted"
+					c16RunCaller(c, &ns, "caller/"+api)
+				}
 			}
 		}
 	}
@@ -2798,6 +3117,9 @@ func runC16(c *core.Ctx) {
 		cs := &c16CallerCase{Part: "caller", API: c16CallerAPIs[rng.Intn(len(c16CallerAPIs))], Sorted: rng.Intn(2) == 0, Salt: 1 + rng.Intn(500), N: 1 + rng.Intn(c.N(30, 80)),
 			Dup: rng.Intn(2) == 0, Codec: c16CodecNames[rng.Intn(len(c16CodecNames))], Shuffle: rng.Int63n(1 << 30), ChurnSeed: rng.Int63n(1 << 40), Workers: rng.Intn(2) * 3}
 		cs.Dedupe = cs.Sorted && rng.Intn(3) == 0
+		if rng.Intn(3) == 0 {
+			cs.Order = "sorted"
+		}
 		c16RunCaller(c, cs, "caller/"+cs.API)
 		if i == 0 {
 			c.Sample(cs)
